@@ -5,6 +5,8 @@ package main
 
 import (
 	"bufio"
+	"bytes"
+	"context"
 	"encoding/json"
 	"flag"
 	"fmt"
@@ -14,6 +16,7 @@ import (
 	"os"
 
 	"perkeep.org/pkg/blob"
+	"perkeep.org/pkg/blobserver"
 
 	"verif/drv"
 	"verif/gate"
@@ -170,6 +173,21 @@ func runHist(cfg *stores.Cfg, u *univ.Universe, hi int, h []drv.Op, lg *gate.Log
 		for _, b := range u.Blobs {
 			if seen[b.Rank] {
 				pre = append(pre, b.Rank)
+			}
+		}
+	}
+	// pre=all|half: blobs already in the first child (overlay: lower layer, proxycache: origin) before
+	// the history starts; hide=all: blobs put into a namespace's master behind its back (must stay invisible).
+	if pp := cfg.Opt["pre"] + cfg.Opt["hide"]; pp != "" {
+		node := sys.Nodes["r/0"]
+		for j, b := range u.Blobs {
+			if pp == "all" || j%2 == 0 {
+				if _, err := blobserver.Receive(context.Background(), node, b.Ref, bytes.NewReader(b.Data)); err != nil {
+					return fmt.Errorf("pre-populating %s: %v", cfg, err)
+				}
+				if cfg.Opt["pre"] != "" {
+					pre = append(pre, b.Rank)
+				}
 			}
 		}
 	}
